@@ -181,6 +181,7 @@ struct PipeWorld : World {
 		std::vector<size_t> completed;    // indices of messages whose terminate succeeded
 		bool crashed = false;
 		size_t complete_bytes = 0;        // finished bytes in the write queue that belong to completed messages
+		std::vector<size_t> frame_bytes;  // encoded size of each completed message, in completion order
 		bool partial_sent = false;        // finished blocks of the message in progress have already left the queue
 		// wire
 		std::deque<uint8_t> wire;         // flushed, not yet delivered
@@ -267,7 +268,7 @@ struct PipeWorld : World {
 			abstract(OP_WTERM, r < 0 ? 0 : 1);
 			if (r >= 0) {
 				if (eq._state.scratch) fail("queue-state", "terminate left scratch=%zu", eq._state.scratch);
-				R.completed.push_back(R.mi); ++R.mi; R.mpos = 0; R.complete_bytes = eq._state.done; R.partial_sent = false;
+				R.frame_bytes.push_back(R.partial_sent ? (size_t) -1 : eq._state.done - R.complete_bytes); R.completed.push_back(R.mi); ++R.mi; R.mpos = 0; R.complete_bytes = eq._state.done; R.partial_sent = false;
 			} else st.hit("fault:queue_full");
 			return r;
 		};
@@ -397,7 +398,20 @@ struct PipeWorld : World {
 				if (R.crashed || R.mi >= R.msgs.size() || R.mpos < R.msgs[R.mi].size()) break;
 				st.hit("op:W_TERM"); w_term(); break;
 			case OP_WABORT: {
-				if (R.crashed || R.mi >= R.msgs.size() || !R.mpos) break;
+				if (R.crashed || R.mi >= R.msgs.size()) break;
+				if (!R.mpos) {
+					// nothing in progress: the request means the last finished message, which can go only while all of it is still queued
+					bool whole = !R.completed.empty() && R.frame_bytes.back() <= R.complete_bytes;
+					ssize_t r; { Sut s; SUT_GUARD_ABORT(r = mpt_queue_push(&eq, 1, 0)); }
+					check_queue(eq, "encode");
+					log.ev("W_ABORT (idle) -> %zd done=%zu len=%zu", r, eq._state.done, eq.len); st.hit("op:W_ABORT_IDLE");
+					if (r >= 0) {
+						if (!whole) fail("abort-merged", "dropping a finished message succeeded although %s", R.completed.empty() ? "none was queued" : "part of it is already on the wire");
+						R.complete_bytes -= R.frame_bytes.back(); R.frame_bytes.pop_back(); R.completed.pop_back();
+						if (eq._state.done != R.complete_bytes || eq._state.scratch || eq.len != eq._state.done) fail("queue-state", "after dropping the last finished message: done=%zu scratch=%zu len=%zu, %zu finished bytes expected", eq._state.done, eq._state.scratch, eq.len, R.complete_bytes);
+					} else if (eq._state.done != R.complete_bytes && !R.partial_sent) fail("queue-state", "a refused drop changed the finished size to %zu (%zu expected)", eq._state.done, R.complete_bytes);
+					break;
+				}
 				st.hit("op:W_ABORT");
 				ssize_t r; { Sut s; SUT_GUARD_ABORT(r = mpt_queue_push(&eq, 1, 0)); }
 				check_queue(eq, "encode");
@@ -558,7 +572,7 @@ struct PipeWorld : World {
 			check_queue(ws._wd, "stream write");
 			log.ev("W_TERM m%zu%s -> %zd done=%zu scratch=%zu len=%zu", R.mi, fired ? " allocfail" : "", r, ws._wd._state.done, ws._wd._state.scratch, ws._wd.len);
 			abstract(OP_WTERM, r < 0 ? 0 : 1);
-			if (r >= 0) { R.completed.push_back(R.mi); ++R.mi; R.mpos = 0; R.complete_bytes = ws._wd._state.done; R.partial_sent = false; }
+			if (r >= 0) { R.frame_bytes.push_back(R.partial_sent ? (size_t) -1 : ws._wd._state.done - R.complete_bytes); R.completed.push_back(R.mi); ++R.mi; R.mpos = 0; R.complete_bytes = ws._wd._state.done; R.partial_sent = false; }
 			return r;
 		};
 		auto w_flush = [&](int fault, int64_t fa) -> int {
